@@ -405,10 +405,15 @@ class Behavior(_IModel):
         scale = self.__yield.scale if self.__yield is not None else 1.0
         floor = 10.0 * self._tol * float(np.max(self.C[..., ZZ, ZZ]))
         tol = max(self._planeStress_tol * max(scale, 1.0), floor)
-        for _ in range(self._maxIter):
+        # without internal variables the response is linear at every magnitude: sig_zz is then
+        # measured against the stress itself, so that tiny strains are condensed as well
+        linear = self.__layout.n == 0
+        for it in range(self._maxIter):
             sig6_e_pg, C6_e_pg, _, _ = self.__Integrate_3d(eps6_e_pg, zOld_e_pg, dt)
             r_e_pg = sig6_e_pg[..., ZZ]
-            if np.max(np.abs(r_e_pg)) < tol:
+            if linear and it == 0:
+                tol = self._planeStress_tol * np.max(np.abs(sig6_e_pg))
+            if np.max(np.abs(r_e_pg)) <= tol:
                 break
             eps_zz = eps6_e_pg[..., ZZ] - r_e_pg / C6_e_pg[..., ZZ, ZZ]
             eps6_e_pg[..., ZZ] = eps_zz
